@@ -200,6 +200,28 @@ def run(ctx):
                                   "divergences": out, "samples": t.get("samples", [])})
     ctx.notes["trace_validation"] = summary
     ctx.notes["stake_vectors"] = rep.get("stake_vectors")
+    # part 3: the NODE's glue around the disseminator (consensus.rs handle_disseminator_shred: validate, forward,
+    # store; the leader's own relay duty): fault-free executions of full nodes - no loss, no crash, no Byzantine
+    # validator - in which every shred of every finalized slot must be scheduled for every validator other than the
+    # slot's leader (EveryoneReceives of Dissemination.tla evaluated on the real system)
+    from .. import sim as S
+    runs = [([1, 1, 1, 1, 1], 0), ([5, 1, 1, 1], 1)] if ctx.tier == "quick" else \
+        [([1, 1, 1, 1, 1], 0), ([5, 1, 1, 1], 1), ([1] * 7, 2), ([9, 1, 1], 3), ([3, 2, 2, 1, 1, 1, 1], 4), ([1, 1], 5)]
+    for stakes, k in runs:
+        name = f"faultfree{len(stakes)}_{k}"
+        trace, summary = S.run_sim(ctx, name, stakes, seed=ctx.seed + 900 + k, gst=0, chaos=0, drop=0, dup=0, delta=60,
+                                   run_ms=(9000 if ctx.tier == "quick" else 20000))
+        ctx.traces += 1
+        ctx.notes.setdefault("faultfree_sims", []).append({"name": name, "stakes": stakes, "finals": summary["finals"],
+                                                            "shreds_checked": summary["shreds_checked"],
+                                                            "gaps": len(summary["shred_gaps"])})
+        if summary["shreds_checked"] < 500:
+            raise ToolError(f"vacuity: only {summary['shreds_checked']} shreds checked in {name}")
+        for p_ in summary["panics"] + summary["task_panics"] + summary["node_errors"]:
+            ctx.divergence(name, "panic", {"panic": p_, "stakes": stakes})
+        if summary["shred_gaps"]:
+            ctx.divergence(name, "node:shred-not-forwarded-to-everyone",
+                           {"stakes": stakes, "gaps": summary["shred_gaps"], "shreds_checked": summary["shreds_checked"]})
     return ctx.finish(rule="part 1: every reachable state of MC_Dissemination (every protocol, N, fanout, global "
                            "routing function and delivery order within the bounds); part 2: one trace per protocol "
                            "kind; a case is one recorded API call (send/forward) of one independently constructed "
